@@ -71,6 +71,7 @@ HL(et) == IF et = EtVLAN THEN 18 ELSE IF et = EtQinQ THEN 22 ELSE 14
 (* IP protocol numbers *)
 ProtoUDP == 17  ProtoTCP == 6  ProtoICMP4 == 1  ProtoICMP6 == 58  ProtoIGMP == 2
 ProtoOther == 253  ProtoNoNext == 59
+ExtHeaderProtos == {0, 43, 44, 50, 51, 60, 4, 41}
 
 ----------------------------------------------------------------------------
 (* The UDP port table: an ORDERED list of rows; the first matching row     *)
@@ -115,7 +116,8 @@ Unicast(src) == src \in {"client", "own", "router"}
 
 Base == [fam |-> "parse", path |-> "l2", src |-> "client", sip |-> "na",
          etype |-> 0, flen |-> 0, ihl |-> 0, tl |-> 0, pl |-> 0, proto |-> 0,
-         sport |-> 0, dport |-> 0, doff |-> 0, itype |-> 0, hlen |-> 0, plen |-> 0]
+         sport |-> 0, dport |-> 0, doff |-> 0, itype |-> 0, hlen |-> 0, plen |-> 0,
+         app |-> "none"]          \* structured content the driver writes where no field decides: see ShapesVlanInner, ShapesApp
 
 Max(a, b) == IF a > b THEN a ELSE b
 Min(a, b) == IF a < b THEN a ELSE b
@@ -291,6 +293,9 @@ L4Cases ==
   \cup {[proto |-> p, n |-> n, doff |-> 0, it |-> t] :
            p \in {ProtoICMP4, ProtoICMP6}, n \in {0, 7, 8, 9, 20}, t \in {0, 8, 3, 128, 129}}
   \cup {[proto |-> p, n |-> n, doff |-> 0, it |-> 0] : p \in {ProtoIGMP, ProtoOther, ProtoNoNext}, n \in {0, 8}}
+  \* IPv6 extension headers (hop-by-hop 0, routing 43, fragment 44, ESP 50, AH 51, destination options 60) and IP-in-IP (4, 41):
+  \* the documented table does not walk them: PayloadIP4 / PayloadIP6 with the payload after the fixed IP header
+  \cup {[proto |-> p, n |-> n, doff |-> 0, it |-> 0] : p \in ExtHeaderProtos, n \in {0, 7, 8, 16, 48}}
 
 ShapesIP4L4 ==
   {IP4S("client", "lan", 4 * ihl + c.n + pad, ihl, 4 * ihl + c.n, c.proto, UnnamedPort, UnnamedPort, c.doff, c.it) :
@@ -334,8 +339,36 @@ ShapesSrc ==
   \cup {IP6S(src, sip, 40 + 24, 24, ProtoICMP6, 0, 0, 0, 135) : src \in SrcMACs, sip \in IP6Srcs}
   \cup {ARPS(src, sip, 28 + pad, 6, 4) : src \in SrcMACs, sip \in IP4Srcs, pad \in {0, 18}}
 
-ParseShapes == ShapesShort \cup ShapesL2 \cup ShapesIP4Hdr \cup ShapesIP4L4 \cup ShapesIP6Hdr
-               \cup ShapesIP6L4 \cup ShapesPorts \cup ShapesARP \cup ShapesSrc
+(* G. 802.1Q / 802.1ad frames that carry a complete, well-formed IPv4 / IPv6 / ARP packet after the tag(s)   *)
+(* (app = "inner-..": the driver writes the inner EtherType and packet).  Documented behaviour: PayloadEther,   *)
+(* payload after the tag, nothing decoded (no IP view, no addresses, no host).                                  *)
+ShapesVlanInner ==
+  {[Base EXCEPT !.path = "l2", !.src = src, !.etype = et, !.flen = HL(et) + n, !.app = inner] :
+      src \in {"client", "router", "own"}, et \in {EtVLAN, EtQinQ}, inner \in {"inner-ip4", "inner-ip6", "inner-arp"},
+      n \in {0, 19, 20, 28, 40, 48, 100}}
+
+(* H. application payloads behind recognised UDP ports, lengths around the thresholds of the payload views       *)
+(* (DHCP4: 240 fixed bytes + options; DNS header: 12 bytes).  app = "dhcp4": the driver writes a BOOTP header,   *)
+(* magic cookie and options so that the DHCP4 view laid over Frame.Payload() is valid where the length allows.  *)
+ShapesApp ==
+  {[IP4S("client", sip, 20 + 8 + n, 5, 20 + 8 + n, ProtoUDP, pp[1], pp[2], 0, 0) EXCEPT !.app = "dhcp4"] :
+      sip \in {"zero", "lan"}, pp \in {<<68, 67>>, <<67, 68>>}, n \in {0, 1, 239, 240, 241, 242, 244, 300, 548}}
+  \cup {[IP4S("client", "lan", 20 + 8 + n, 5, 20 + 8 + n, ProtoUDP, pp[1], pp[2], 0, 0) EXCEPT !.app = "dns"] :
+      pp \in {<<UnnamedPort, 53>>, <<53, UnnamedPort>>, <<5353, 5353>>, <<UnnamedPort, 5355>>, <<137, 137>>}, n \in {0, 11, 12, 13, 40, 512}}
+  \cup {[IP6S("client", "lla", 40 + 8 + n, 8 + n, ProtoUDP, pp[1], pp[2], 0, 0) EXCEPT !.app = "dns"] :
+      pp \in {<<UnnamedPort, 53>>, <<5353, 5353>>, <<5355, UnnamedPort>>, <<546, 547>>}, n \in {0, 11, 12, 13, 40, 512}}
+
+(* I. echo replies while a ping is in flight (app = "echo-waiter": the driver starts Session.Ping in a goroutine   *)
+(* and writes the id of the registered waiter into the reply).  Parse must return for every byte string in every  *)
+(* session state, also when the same reply arrives twice (the three buffers, and once more back to back).        *)
+ShapesEchoWaiter ==
+  {[IP4S("client", "lan", 20 + 8 + 16, 5, 20 + 8 + 16, p, 0, 0, 0, t) EXCEPT !.app = "echo-waiter"] :
+      p \in {ProtoICMP4, ProtoICMP6}, t \in {0, 129, 8}}
+  \cup {[IP6S("client", "lla", 40 + 8 + 16, 8 + 16, p, 0, 0, 0, t) EXCEPT !.app = "echo-waiter"] :
+      p \in {ProtoICMP4, ProtoICMP6}, t \in {0, 129, 128}}
+
+ParseShapes == ShapesEchoWaiter \cup ShapesShort \cup ShapesL2 \cup ShapesIP4Hdr \cup ShapesIP4L4 \cup ShapesIP6Hdr
+               \cup ShapesIP6L4 \cup ShapesPorts \cup ShapesARP \cup ShapesSrc \cup ShapesVlanInner \cup ShapesApp
 
 ----------------------------------------------------------------------------
 (* C16: allocation cases = PayloadID class x address family x tracking status                   *)
@@ -343,21 +376,23 @@ ParseShapes == ShapesShort \cup ShapesL2 \cup ShapesIP4Hdr \cup ShapesIP4L4 \cup
 (* that makes the frame untracked by rule.                                                      *)
 AllocFree(status) == status # "new"
 
-WF4(src, sip, proto, sp, dp, n, doff) == IP4S(src, sip, 20 + n, 5, 20 + n, proto, sp, dp, doff, 8)
-WF6(src, sip, nh, sp, dp, n, doff)    == IP6S(src, sip, 40 + n, n, nh, sp, dp, doff, 128)
+WF4(src, sip, proto, sp, dp, n, doff, it) == IP4S(src, sip, 20 + n, 5, 20 + n, proto, sp, dp, doff, it)
+WF6(src, sip, nh, sp, dp, n, doff, it)    == IP6S(src, sip, 40 + n, n, nh, sp, dp, doff, it)
 
-(* one well-formed representative frame per PayloadID (and family where it applies) *)
-PortPairFor == [id \in PayloadIDs |->      \* a representative port pair of every UDP application class
-  IF \E pr \in PortClasses \X PortClasses : UDPId(pr[1], pr[2]) = id
-  THEN CHOOSE pr \in PortClasses \X PortClasses : UDPId(pr[1], pr[2]) = id ELSE <<0, 0>>]
-UDPIds == {UDPId(sp, dp) : sp \in PortClasses, dp \in PortClasses}
+(* Well-formed representative frames.  Every field that selects a code path inside Parse varies:      *)
+(* every UDP port row in both directions, TCP with and without options, every ICMP type that Parse or  *)
+(* a handler distinguishes (echo reply 0 / 129 wakes ping waiters, echo request, the five NDP types,   *)
+(* destination unreachable), IGMP, an unknown protocol.                                                *)
+AllocPortPairs == {<<p, UnnamedPort>> : p \in PortClasses} \cup {<<UnnamedPort, p>> : p \in PortClasses}
+                  \cup {<<443, 53>>, <<53, 443>>, <<67, 68>>, <<68, 67>>, <<5353, 5353>>, <<137, 137>>}
+ICMPTypes == {0, 8, 3, 5, 11, 128, 129, 133, 134, 135, 136, 137, 143}
 L4Reps(fam, src, sip) ==
-  LET W(proto, sp, dp, n, doff) == IF fam = 4 THEN WF4(src, sip, proto, sp, dp, n, doff)
-                                             ELSE WF6(src, sip, proto, sp, dp, n, doff) IN
-  {W(ProtoUDP, PortPairFor[id][1], PortPairFor[id][2], 8 + 16, 0) : id \in UDPIds}
-  \cup {W(ProtoTCP, 443, UnnamedPort, 20 + 11, 5), W(ProtoTCP, UnnamedPort, 80, 24 + 5, 6),
-        W(IF fam = 4 THEN ProtoICMP4 ELSE ProtoICMP6, 0, 0, 8 + 8, 0),
-        W(ProtoIGMP, 0, 0, 8, 0), W(ProtoOther, 0, 0, 9, 0)}
+  LET W(proto, sp, dp, n, doff, it) == IF fam = 4 THEN WF4(src, sip, proto, sp, dp, n, doff, it)
+                                                 ELSE WF6(src, sip, proto, sp, dp, n, doff, it) IN
+  {W(ProtoUDP, pr[1], pr[2], 8 + 16, 0, 0) : pr \in AllocPortPairs}
+  \cup {W(ProtoTCP, 443, UnnamedPort, 20 + 11, 5, 0), W(ProtoTCP, UnnamedPort, 80, 24 + 5, 6, 0)}
+  \cup {W(p, 0, 0, 8 + 24, 0, t) : p \in {ProtoICMP4, ProtoICMP6}, t \in ICMPTypes}
+  \cup {W(ProtoIGMP, 0, 0, 8, 0, 0), W(ProtoOther, 0, 0, 9, 0, 0), W(0, 0, 0, 16, 0, 0)}
 
 AllocCases ==
   \* IP frames: tracked / new / untracked by rule
@@ -474,7 +509,7 @@ ViewNames == {r.v : r \in FieldTable} \cup {"LLDP", "Unknown880a"}
 (* getters that are called (C01: no panic, no hang, results inside the view) but whose VALUE is not     *)
 (* compared: renderers, checksum (C15), parsers returning maps / structs (C08, C17), convenience wrappers *)
 UncomparedEverywhere == {"String"}
-Uncompared == {<<"IP4", "CalculateChecksum">>, <<"DHCP4", "ParseOptions">>, <<"ICMP6RouterSolicitation", "Options">>,
+Uncompared == {<<"IP4", "CalculateChecksum">>, <<"ICMP6RouterSolicitation", "Options">>,
                <<"ICMP6RouterAdvertisement", "Options">>, <<"HopByHopExtensionHeader", "ParseHopByHopExtensions">>,
                <<"LLC", "Type">>, <<"Ether", "SrcIP">>, <<"Ether", "DstIP">>}
 (* getters whose value is a derived range or number given per view shape (ViewShapes below) *)
@@ -482,7 +517,7 @@ DerivedGetters == {<<"Ether", "Payload">>, <<"Ether", "HeaderLen">>, <<"IP4", "P
                    <<"TCP", "Payload">>, <<"ICMP", "Payload">>, <<"ICMPEcho", "EchoData">>, <<"ICMP4Redirect", "Addrs">>,
                    <<"ICMP6RouterSolicitation", "SourceLLA">>, <<"ICMP6NeighborAdvertisement", "TargetLLA">>,
                    <<"ICMP6NeighborSolicitation", "SourceLLA">>, <<"ICMP6Redirect", "TargetLinkLayerAddr">>,
-                   <<"DHCP4", "Options">>, <<"SNAP", "Payload">>, <<"RRCP", "Zeros">>, <<"IEEE1905", "TLV">>,
+                   <<"DHCP4", "Options">>, <<"DHCP4", "ParseOptions">>, <<"SNAP", "Payload">>, <<"RRCP", "Zeros">>, <<"IEEE1905", "TLV">>,
                    <<"EthernetPause", "Reserved">>, <<"LLC", "Payload">>, <<"LLDP", "ChassisID">>, <<"LLDP", "PortID">>,
                    <<"HopByHopExtensionHeader", "Data">>}
 
@@ -522,7 +557,7 @@ Raw(off, b) == [off |-> off, b |-> b]
 Rn(g, lo, hi) == [g |-> g, lo |-> lo, hi |-> hi]
 VS(view, len, set, raw, wf, ranges, absent) ==
   [fam |-> "view", view |-> view, len |-> len, set |-> set, raw |-> raw,
-   wf |-> wf, ranges |-> IF wf THEN ranges ELSE {}, absent |-> IF wf THEN absent ELSE {}, nums |-> {}, lists |-> {}]
+   wf |-> wf, ranges |-> IF wf THEN ranges ELSE {}, absent |-> IF wf THEN absent ELSE {}, nums |-> {}, lists |-> {}, maps |-> {}]
 Fixed(view, lens, minlen, ranges(_)) ==     \* views whose only length rule is a minimum length
   {VS(view, n, {}, {}, n >= minlen, ranges(n), {}) : n \in lens}
 
@@ -591,14 +626,27 @@ ViewNDP ==
 DhcpOpts == {<<>>, <<255>>, <<255, 0>>, <<0, 255>>, <<53, 1, 1, 255>>, <<53, 1, 1>>, <<53, 9, 1, 255>>,
              <<12, 3, 97, 98, 99, 53, 1, 3, 255, 0, 0>>, <<12, 0, 255>>, <<0, 0, 0, 0>>}
 DhcpOptsWF(o) == o \in {<<255, 0>>, <<0, 255>>, <<53, 1, 1, 255>>, <<12, 3, 97, 98, 99, 53, 1, 3, 255, 0, 0>>, <<12, 0, 255>>}
+(* expected result of ParseOptions for the well-formed option areas: code -> value range (relative to the view) *)
+Ent(k, lo, hi) == [k |-> k, lo |-> lo, hi |-> hi]
+DhcpOptMap(o) ==
+  CASE o = <<53, 1, 1, 255>> -> {Ent(53, 242, 243)}
+    [] o = <<12, 3, 97, 98, 99, 53, 1, 3, 255, 0, 0>> -> {Ent(12, 242, 245), Ent(53, 247, 248)}
+    [] o = <<12, 0, 255>> -> {Ent(12, 242, 242)}
+    [] OTHER -> {}
 ViewDHCP4 ==
-  {VS("DHCP4", 240 + Len(o), {S1("OpCode", op), S1("HLen", hl)}, {Raw(236, <<99, 130, 83, 99>>), Raw(240, o)},
-      op \in {1, 2} /\ hl = 6 /\ DhcpOptsWF(o), IF Len(o) > 0 THEN {Rn("Options", 240, 240 + Len(o))} ELSE {}, {}) :
+  {[VS("DHCP4", 240 + Len(o), {S1("OpCode", op), S1("HLen", hl)}, {Raw(236, <<99, 130, 83, 99>>), Raw(240, o)},
+       op \in {1, 2} /\ hl = 6 /\ DhcpOptsWF(o), IF Len(o) > 0 THEN {Rn("Options", 240, 240 + Len(o))} ELSE {}, {})
+      EXCEPT !.maps = IF op \in {1, 2} /\ hl = 6 /\ DhcpOptsWF(o) THEN {[g |-> "ParseOptions", items |-> DhcpOptMap(o)]} ELSE {}] :
       o \in DhcpOpts, op \in {0, 1, 2, 3}, hl \in {6, 16}}
   \cup {VS("DHCP4", n, {S1("OpCode", 1), S1("HLen", 6)}, {}, FALSE, {}, {}) : n \in {0, 239, 240, 241}}
+  \* BOOTP strings: terminator at the first, a middle, the last byte of sname / file, or missing (FieldTable kind "cstr")
+  \cup {VS("DHCP4", 244, {S1("OpCode", 2), S1("HLen", 6)},
+            {Raw(236, <<99, 130, 83, 99>>), Raw(240, <<53, 1, 5, 255>>)} \cup zs \cup zf, TRUE, {Rn("Options", 240, 244)}, {}) :
+         zs \in {{}, {Raw(44, <<0>>)}, {Raw(60, <<0>>)}, {Raw(107, <<0>>)}},
+         zf \in {{}, {Raw(108, <<0>>)}, {Raw(200, <<0, 0>>)}, {Raw(235, <<0>>)}}}
 
 ViewSmall ==
-  Fixed("DNS", {11, 12, 13, 40}, 12, LAMBDA n : {})
+  Fixed("DNS", {0, 11, 12, 13, 17, 40, 512}, 12, LAMBDA n : {})
   \cup Fixed("SNAP", {8, 9, 10, 20}, 9, LAMBDA n : {Rn("Payload", 8, n)})
   \cup Fixed("RRCP", {15, 16, 17, 60}, 16, LAMBDA n : {Rn("Zeros", 7, n)})
   \cup Fixed("IEEE1905", {7, 8, 9, 20}, 8, LAMBDA n : {Rn("TLV", 8, n)})
